@@ -114,3 +114,48 @@ Theorem C08_calculate_allnodes_flow_is_code : forall d cs p rows m0,
   = calc_allnodes d cs p rows.
 Proof. exact calculate_allnodes_tie. Qed.
 Print Assumptions C08_calculate_allnodes_flow_is_code.
+
+(* tie to the source, the RENDERER of /v2/accessibility: the keys of a node object (nodeToJson), of the answer and of its
+   "result" object (result_to_v2_accessibility.cpp) are read AS THEY ARE NOW by tools/gen_render.py (gen/Render.v) - which
+   member feeds "nodeTime" (arrivalTime for a departure query, arrivalTime - totalTravelTime for an arrival query),
+   "totalTravelTime", "numberOfTransfers", "totalNodeCount" - and executed by the interpreter of RenderJson.v.  Every
+   node object on the wire carries the row of the model's result under the documented keys *)
+Require Coq.Strings.String.
+Require TrV.Http TrV.RenderJson TrV.gen.Render.
+From TrV Require Proofs.RenderTie.
+Module RJ.
+  Import TrV.Http Coq.Strings.String TrV.RenderJson TrV.Proofs.RenderTie.
+  Import ListNotations.
+  Local Open Scope string_scope.
+  Local Open Scope list_scope.
+  Local Open Scope Z_scope.
+  Theorem C08_json_access_node_is_code : forall fwd a,
+    json_of_access_node fwd a = render_node_obj GR.gen_render_access_node fwd a.
+  Proof. exact access_node_tie. Qed.
+  Theorem C08_json_access_node_fields : forall fwd a,
+    let j := render_node_obj GR.gen_render_access_node fwd a in
+    jnum "nodeTime" j = Some (if fwd then an_time a else an_time a - an_ttt a) /\
+    jnum "totalTravelTime" j = Some (an_ttt a) /\
+    jnum "numberOfTransfers" j = Some (an_ntr a) /\
+    jget "nodeUuid" j = Some (JOpaque ONodeUuid (an_node a)) /\
+    jkeys j = ["nodeCode"; "nodeCoordinates"; "nodeName"; "nodeTime"; "nodeUuid"; "numberOfTransfers"; "totalTravelTime"].
+  Proof. exact json_access_nodes. Qed.
+  (* the answer: one node object per row of the model's result, in order, and the number of stops *)
+  Theorem C08_json_access_answer : forall nodes total q,
+    exists res,
+      jget "result" (render_access GR.gen_render_access_query GR.gen_render_access_node GR.gen_render_access_top
+                                   GR.gen_render_access_result nodes total q) = Some res /\
+      jget "nodes" res = Some (JArr (map (render_node_obj GR.gen_render_access_node (qe_fwd q)) nodes)) /\
+      jnum "totalNodeCount" res = Some total.
+  Proof. exact json_access_answer. Qed.
+  (* ... and it is the body the handler model sends (Http.render / Http.render_node) *)
+  Theorem C08_json_http_access_body : forall nodes total q,
+    json_of_body true (HAccess (map (render_node (qe_fwd q)) nodes) total q) =
+    Some (render_access GR.gen_render_access_query GR.gen_render_access_node GR.gen_render_access_top
+                        GR.gen_render_access_result nodes total q).
+  Proof. exact access_body_tie. Qed.
+End RJ.
+Print Assumptions RJ.C08_json_access_node_is_code.
+Print Assumptions RJ.C08_json_access_node_fields.
+Print Assumptions RJ.C08_json_access_answer.
+Print Assumptions RJ.C08_json_http_access_body.
